@@ -76,6 +76,7 @@ type valPayload struct {
 	TL1B   []int  `json:"tl1b"`
 	Small  bool   `json:"small"`
 	Orig2  bool   `json:"origin2"`
+	NegZ   bool   `json:"negzero"`
 	HasTL2 bool   `json:"hastl2"`
 	TL2    []int  `json:"tl2"`
 	JSON   *JT    `json:"json"`
@@ -183,7 +184,7 @@ func runCorpusTL1(c *core.Ctx, prop string, cp Corpus, k, kmut, kjson int) error
 			}
 			for _, f := range fs {
 				if classOf[prop][f.class] {
-					c.Violate(fmt.Sprintf("%s/%s/%s/%s", f.class, cp.Name, p.Tn, f.key), fmt.Sprintf("type %s: %s", p.Tn, f.what),
+					c.Violate(fmt.Sprintf("%s/%s/%s/%s", f.class, cp.Name, p.Tn, negKey(&p, f)), fmt.Sprintf("type %s: %s", p.Tn, f.what),
 						map[string]any{"corpus": cp, "payload": p})
 				} else {
 					c.Add("other_property_mismatches_seen", 1)
@@ -205,7 +206,7 @@ func runCorpusTL1(c *core.Ctx, prop string, cp Corpus, k, kmut, kjson int) error
 				return
 			}
 			for _, f := range fs {
-				c.Violate(fmt.Sprintf("%s/%s/%s/%s", f.class, cp.Name, p.Tn, f.key), fmt.Sprintf("type %s: %s", p.Tn, f.what),
+				c.Violate(fmt.Sprintf("%s/%s/%s/%s", f.class, cp.Name, p.Tn, negKey(&p, f)), fmt.Sprintf("type %s: %s", p.Tn, f.what),
 					map[string]any{"corpus": cp, "payload": p})
 			}
 			if nEdge%499 == 1 {
@@ -222,7 +223,7 @@ func runCorpusTL1(c *core.Ctx, prop string, cp Corpus, k, kmut, kjson int) error
 			}
 			for _, f := range fs {
 				if classOf[prop][f.class] {
-					c.Violate(fmt.Sprintf("%s/%s/%s/%s", f.class, cp.Name, p.Tn, f.key), fmt.Sprintf("type %s: %s", p.Tn, f.what),
+					c.Violate(fmt.Sprintf("%s/%s/%s/%s", f.class, cp.Name, p.Tn, negKey(&p, f)), fmt.Sprintf("type %s: %s", p.Tn, f.what),
 						map[string]any{"corpus": cp, "payload": p})
 				}
 			}
@@ -669,4 +670,14 @@ func corporaFor(c *core.Ctx) []Corpus {
 		return r
 	}
 	return all
+}
+
+// negKey: values holding a negative-zero float are a known class (emptiness of float
+// fields is tested with x != 0, so -0.0 in a required field is dropped from TL2 and JSON);
+// their mismatches outside TL1 get one stable key per class instead of one per input.
+func negKey(p *valPayload, f finding) string {
+	if p.NegZ && f.class != "tl1" {
+		return "negative-zero-float"
+	}
+	return f.key
 }
